@@ -1,22 +1,32 @@
 """C23 — result-preserving toolbox transformations preserve power flow results.
 
 Correspondence: replace_line_by_impedance / merge_parallel_line on line tables with shuffled, gapped indices: the created
-impedance parameters (or the exception class) vs C23.Model.line_to_imp (label access and positional access kept apart).
-Oracle: runpp before and after each transformation on mapped buses/elements."""
+impedance parameters (or the exception class) vs C23.Model.line_to_imp (label access and positional access kept apart);
+ward / xward / ext_grid replacements: created rows, ppc bus columns PD QD GS BS of a fresh _pd2ppc before and after, the xward's
+internal branch + PV node vs the created impedance + gen, BUS_TYPE / VM / VA at the ext_grid bus vs C23.Repl; fuse_buses over a
+bus-bus switch: the topology tables after the real call and the bus -> ppc row partition before / after vs C23.Fuse (C07 net).
+Oracle: runpp before and after each transformation on mapped buses/elements; neutrality of the ppc rows / partition."""
 import copy, json, math, os, glob
 from fractions import Fraction
 import numpy as np
 import pandas as pd
 import pandapower as pp
 import pandapower.toolbox as tb
-from vf import coqrun as cq, nets
+from vf import coqrun as cq, nets, c23_repl as rp, c07_gen
 
 RULE = ("meshed 20 kV nets (4-8 buses, optional 110 kV feeder) with shuffled gapped bus/line indices in 60 % of the cases; "
         "each transformation applied at random applicable targets; non-trivial = the transformation changed at least one table "
-        "and the power flow converged before and after")
+        "and the power flow converged before and after; replacement correspondence: nets with sn_mva in {1,10,100}, 1-3 wards / 0-2 "
+        "xwards with shuffled indices (all or a random subset in random order), shunts with vn_kv != bus voltage and step 2, scaled "
+        "loads, out-of-service elements / buses, fused buses, ext_grid with va_degree 0/10, slack True/False, with/without results; "
+        "fuse correspondence: rich nets, a random bus-bus switch (closed/open, z_ohm 0 / > 0), both directions")
 ASSUMPTIONS = ["runpp (Newton-Raphson) is an oracle; results compared within 1e-6 pu / 1e-5 MW",
-               "equal ppc branch parameters imply equal results (C02/C05 machinery); here only the parameter algebra is proved"]
-TRUSTED = ["mapping of buses/elements before/after each transformation in props/c23.py"]
+               "equal ppc bus rows, branch rows and bus lookup partition imply equal results (C01/C02/C05 machinery); C23 proves the "
+               "equality of these ppc quantities for the line/impedance, ward, xward, ext_grid replacements and fuse_buses",
+               "the on/off flag of the created xward source is compared only for xwards at in-service buses (otherwise the created "
+               "bus + gen island is removed by the connectivity check, outside C23/Repl.v)"]
+TRUSTED = ["mapping of buses/elements before/after each transformation in props/c23.py",
+           "harness/vf/c23_repl.py emitters (table -> Gallina records) and ppc readers; harness/vf/c07_gen.net_term"]
 TOL = 1e-6
 
 
@@ -308,6 +318,223 @@ def run(ctx):
                 ctx.violation("spec", "merge_nets of disjoint nets changes bus results by %.3g" % max(d1, d2),
                               {"net1": pp.to_json(net), "net2": pp.to_json(net2)})
     structural_oracle(ctx, rng)
+    replacement_correspondence(ctx, rng)
+    fuse_correspondence(ctx, rng)
+
+
+def replacement_correspondence(ctx, rng):
+    """ward / xward / ext_grid replacements: the created rows and the ppc quantities of the real power flow build before and
+    after the real replacement vs coq/C23/Repl.v (run_wards / run_xwards / run_egrids)"""
+    from pandapower.pypower.idx_bus import BUS_TYPE, VM, VA
+    terms, checks = [], []
+    for k in range(ctx.n(30, 400)):
+        net = rp.repl_net(rng)
+        kind = ("ward", "xward", "ext_grid")[k % 3]
+        if kind == "xward" and not len(net.xward):
+            kind = "ward"
+        work = copy.deepcopy(net)
+        desc = {"kind": kind, "net": pp.to_json(net)}
+        try:
+            if kind in ("ward", "xward"):
+                tab = net[kind]
+                sel = None if rng.random() < 0.4 else rng.sample([int(i) for i in tab.index], rng.randint(1, len(tab)))
+                sel_l = [int(i) for i in tab.index] if sel is None else sel
+                desc["sel"] = sel
+                desc["xward_buses_in_service"] = bool(all(net.bus.in_service.at[x] for x in net.xward.bus.values))
+                ppc1 = rp.fresh_ppc(net)
+                pairs1, bk1, rows1, vals1 = rp.observe_rows(net, ppc1)
+                src1 = rp.observe_xward_sources(net, ppc1) if kind == "xward" else None
+                n_load, n_shunt, n_bus, n_gen = len(work.load), len(work.shunt), len(work.bus), len(work.gen)
+                if kind == "ward":
+                    tb.replace_ward_by_internal_elements(work, wards=sel)
+                else:
+                    tb.replace_xward_by_internal_elements(work, xwards=sel)
+                ppc2 = rp.fresh_ppc(work)
+                pairs2, bk2, rows2, vals2 = rp.observe_rows(work, ppc2)
+                ld = [[int(r.bus), float(r.p_mw), float(r.q_mvar), float(r.scaling), bool(r.in_service)] for r in work.load.iloc[n_load:].itertuples()]
+                sh = [[int(r.bus), float(r.p_mw), float(r.q_mvar), float(r.vn_kv), float(r.step), bool(r.in_service)] for r in work.shunt.iloc[n_shunt:].itertuples()]
+                left = [int(i) for i in work[kind].index]
+                impl = [ld, sh, left, [vals1[r] for r in rows1], [vals2[r] for r in rows2]]
+                if kind == "xward":
+                    nb = [[int(i), float(r.vn_kv), bool(r.in_service)] for i, r in zip(work.bus.index[n_bus:], work.bus.iloc[n_bus:].itertuples())]
+                    ng = [[int(r.bus), float(r.p_mw), float(r.vm_pu), float(r.scaling), bool(r.slack), bool(r.in_service)] for r in work.gen.iloc[n_gen:].itertuples()]
+                    ni = [[int(r.from_bus), int(r.to_bus), float(r.rft_pu), float(r.xft_pu), float(r.rtf_pu), float(r.xtf_pu), float(r.sn_mva), bool(r.in_service)]
+                          for r in work.impedance.itertuples()]
+                    s_before = [src1[p] if int(i) in sel_l else None for p, i in enumerate(net.xward.index)]
+                    s_after = rp.observe_internal_sources(work, ppc2, list(work.impedance.index), list(work.gen.index[n_gen:]))
+                    impl += [nb, ng, ni, s_before, s_after]
+                fn = "run_wards" if kind == "ward" else "run_xwards"
+                terms.append("%s %s %s %s %s %s %s %s %s" % (fn, rp.repl_net_term(net), rp.nats(sel_l), rp.pairs_term(pairs1), rp.pairs_term(pairs2),
+                                                          rp.bk_term(bk1), rp.bk_term(bk2), rp.nats(rows1), rp.nats(rows2)))
+                # the neutrality itself on the real code: same PD QD GS BS on every row of an old bus
+                r2 = dict(pairs2)
+                same = all(rp.close(u, v) for bb, r in pairs1 for u, v in zip(vals1[r], vals2[r2[bb]]))
+                checks.append((kind, impl, desc, same))
+                ctx.count("repl_corr:%s:%s" % (kind, "all" if sel is None else "subset"))
+                ctx.count("repl_corr:sn_mva=%g" % net.sn_mva)
+            else:
+                slack = rng.random() < 0.85
+                cva = rng.random() < 0.7
+                with_res = rng.random() < 0.5
+                if with_res:
+                    try:
+                        pp.runpp(work, numba=False, calculate_voltage_angles=cva)
+                    except Exception:
+                        with_res = False
+                resp = []
+                if with_res:
+                    resp = [(int(i), float(work.res_ext_grid.p_mw.at[i])) for i in work.res_ext_grid.index]
+                    if any(v != v for _, v in resp):
+                        continue
+                ppc1 = rp.fresh_ppc(net, cva)
+                lk1 = net._pd2ppc_lookups["bus"]
+                v1 = []
+                for e in net.ext_grid.itertuples():
+                    r = int(lk1[e.bus])
+                    t = int(ppc1["bus"][r, BUS_TYPE])
+                    v1.append([t == 3, t == 2, float(ppc1["bus"][r, VM]), float(ppc1["bus"][r, VA])] if e.in_service and net.bus.in_service.at[e.bus] else None)
+                n_gen = len(work.gen)
+                tb.replace_ext_grid_by_gen(work, slack=slack)
+                ng = [[int(r.bus), float(r.p_mw), float(r.vm_pu), float(r.scaling), bool(r.slack), bool(r.in_service)] for r in work.gen.iloc[n_gen:].itertuples()]
+                v2 = None
+                if slack:
+                    ppc2 = rp.fresh_ppc(work, cva)
+                    lk2 = work._pd2ppc_lookups["bus"]
+                    v2 = []
+                    for g in work.gen.iloc[n_gen:].itertuples():
+                        r = int(lk2[g.bus])
+                        t = int(ppc2["bus"][r, BUS_TYPE])
+                        v2.append([t == 3, t == 2, float(ppc2["bus"][r, VM]), float(ppc2["bus"][r, VA])] if g.in_service and work.bus.in_service.at[g.bus] else None)
+                impl = [ng, [int(i) for i in work.ext_grid.index], v1, v2]
+                terms.append("run_egrids %s %s %s %s %s" % (rp.repl_net_term(net), cq.b(slack), cq.b(cva),
+                                                         cq.lst(["(%d%%nat, %s)" % (i, rp.q(v)) for i, v in resp]),
+                                                         rp.nats([int(i) for i in net.ext_grid.index])))
+                desc.update({"slack": slack, "cva": cva, "with_res": with_res})
+                checks.append((kind, impl, desc, True))
+                ctx.count("repl_corr:ext_grid:slack=%s:va=%s" % (slack, "0" if all(v == 0 for v in net.ext_grid.va_degree.values) else "nonzero"))
+        except Exception as e:
+            ctx.violation("spec", "replace_%s raises %s: %s" % (kind, type(e).__name__, str(e)[:200]), desc)
+            continue
+        ctx.case({"kind": kind, "sel": desc.get("sel"), "net": desc["net"][:1500]}, nontrivial=True,
+                 sample={"kind": kind, "sel": desc.get("sel"), "sn_mva": float(net.sn_mva)} if k < 3 else None)
+    model = ctx.coq_eval("c23r", "Base.QN C23.Repl", terms, shard=10, timeout=280)
+    for (kind, impl, desc, same), m in zip(checks, model):
+        ctx.corr_checked += 1
+        if isinstance(m, cq.Err):
+            ctx.disagreement("replace_%s returned normally, model raises %s" % (kind, m.s), desc)
+            continue
+        if kind == "ext_grid":
+            ng, left, v1, v2 = impl
+            if not rp.close_rows(ng, m[0]) or left != m[1]:
+                ctx.disagreement("replace_ext_grid_by_gen: created gens / remaining ext_grids differ: impl=%s model=%s" % ((ng, left), (m[0], m[1])), desc)
+            elif not _vref_same(v1, m[2]) or (v2 is not None and not _vref_same(v2, m[3])):
+                ctx.disagreement("ext_grid / gen reference data in the ppc differ: impl=%s model=%s" % ((v1, v2), (m[2], m[3])), desc)
+            continue
+        names = ["created loads", "created shunts", "remaining %s index" % kind, "PD QD GS BS before", "PD QD GS BS after",
+                 "created buses", "created gens", "created impedances", "xward source (branch, PV set point) before", "internal source after"]
+        for j, (a, c) in enumerate(zip(impl, m)):
+            # an xward at an out-of-service bus: the created bus + gen form an island that the connectivity check takes out of
+            # service (outside C23/Repl.v): the on/off flag of the internal source is compared for in-service buses only
+            ok = (a == c) if j == 2 else (_src_same(a, c, flag=(j == 8 or desc["xward_buses_in_service"])) if j >= 8 else rp.close_rows(a, c))
+            if not ok:
+                ctx.disagreement("replace_%s_by_internal_elements: %s differ: impl=%s model=%s" % (kind, names[j], a, c), desc)
+                break
+        if not same:
+            ctx.violation("spec", "replace_%s_by_internal_elements changes PD/QD/GS/BS of a ppc bus row" % kind, desc)
+        if kind == "xward":
+            # the voltage source itself on the real build: created impedance + gen == internal branch + PV node of the xward
+            sb_, sa_ = [x for x in impl[8] if x is not None], impl[9]
+            if desc["sel"] is None and desc["xward_buses_in_service"] and not _src_same(sb_, sa_):
+                ctx.violation("spec", "replace_xward_by_internal_elements: impedance + gen differ from the xward's internal branch + PV node: %s vs %s" % (sb_, sa_), desc)
+
+
+def _vref_same(a, c):
+    if len(a) != len(c):
+        return False
+    for x, y in zip(a, c):
+        if x is None or y is None:
+            if (x is None) != (y is None):
+                return False
+            continue
+        if [bool(x[0]), bool(x[1])] != [bool(y[0]), bool(y[1])] or not rp.close(x[2], y[2]) or not rp.close(x[3], y[3]):
+            return False
+    return True
+
+
+def _src_same(a, c, flag=True):
+    if len(a) != len(c):
+        return False
+    for x, y in zip(a, c):
+        if x is None or y is None:
+            if (x is None) != (y is None):
+                return False
+            continue
+        if not flag:
+            x, y = x[:-1], y[:-1]
+        if len(x) != len(y) or not all(rp.close(u, v) for u, v in zip(x, y)):
+            return False
+    return True
+
+
+def fuse_correspondence(ctx, rng):
+    """fuse_buses over a closed bus-bus switch: the tables after the real fuse_buses and the bus -> ppc row partition of a fresh
+    power flow build before / after vs coq/C23/Fuse.v (fuse_buses on C07.Model.net, rep = C07 lookup)"""
+    terms, checks = [], []
+    for k in range(ctx.n(24, 300)):
+        net = rich_net(rng)
+        bb = [(int(a), int(e), bool(c), float(z)) for a, e, et, c, z in zip(net.switch.bus.values, net.switch.element.values, net.switch.et.values,
+                                                                      net.switch.closed.values, net.switch.z_ohm.values) if et == "b" and a != e]
+        if not bb:
+            continue
+        if rng.random() < 0.25:
+            net.switch.loc[net.switch.et == "b", "z_ohm"] = rng.choice([0.0, 0.5])
+        a, e, closed, z = rng.choice(bb)
+        if rng.random() < 0.5:
+            a, e = e, a
+        desc = {"b1": a, "b2": e, "net": pp.to_json(net)}
+        work = copy.deepcopy(net)
+        try:
+            rp.fresh_ppc(net)
+            part1 = rp.lookup_partition(net)
+            tb.fuse_buses(work, a, [e])
+            rp.fresh_ppc(work)
+            part2 = rp.lookup_partition(work)
+        except Exception as ex:
+            ctx.violation("spec", "fuse_buses raises %s: %s" % (type(ex).__name__, str(ex)[:200]), desc)
+            continue
+        terms.append("run_fuse %s %d%%nat %d%%nat" % (c07_gen.net_term(net), a, e))
+        checks.append((net, work, a, e, part1, part2, desc))
+        ctx.case({"b1": a, "b2": e, "net": desc["net"][:1500]}, nontrivial=True, sample={"b1": a, "b2": e} if k < 2 else None)
+    model = ctx.coq_eval("c23f", "C07.Model C23.Fuse", terms, shard=12, timeout=280)
+    for (net, work, a, e, part1, part2, desc), m in zip(checks, model):
+        ctx.corr_checked += 1
+        m_net, m_rep1, m_rep2, g = m
+        impl_tabs = rp.topo_lists(work)
+        if impl_tabs != [[list(r) for r in t] for t in m_net]:
+            names = ["bus", "line", "trafo", "trafo3w", "impedance", "dcline", "xward", "switch", "bus elements"]
+            bad = [names[j] for j in range(9) if impl_tabs[j] != [list(r) for r in m_net[j]]]
+            ctx.disagreement("fuse_buses: tables %s differ after fusing %d <- %d" % (bad, a, e), desc)
+            continue
+        isb1 = [int(x) for x in net.bus.index if net.bus.in_service.at[x]]
+        isb2 = [int(x) for x in work.bus.index if work.bus.in_service.at[x]]
+        mp1 = rp.partition_of(dict((int(x), int(r)) for x, r in m_rep1), isb1)
+        mp2 = rp.partition_of(dict((int(x), int(r)) for x, r in m_rep2), isb2)
+        if mp1 != part1 or mp2 != part2:
+            ctx.disagreement("bus -> ppc row partition: impl before %s after %s, model before %s after %s" % (part1, part2, mp1, mp2), desc)
+            continue
+        # python twin of G23f
+        isb = set(isb1)
+        g_py = a != e and any(et == "b" and c and not (zz > 0) and int(x) in isb and int(y) in isb and {int(x), int(y)} == {a, e}
+                              for x, y, et, c, zz in zip(net.switch.bus.values, net.switch.element.values, net.switch.et.values,
+                                                         net.switch.closed.values, net.switch.z_ohm.values))
+        if bool(g) != g_py:
+            ctx.disagreement("guard G23f: model %s, python twin %s" % (g, g_py), desc)
+            continue
+        ctx.count("fuse_corr:G23f=%s" % g_py)
+        # the theorem's statement on the real code: under G23f the partition is unchanged (b2 mapped to b1)
+        mapped = sorted(sorted(set(a if x == e else x for x in c)) for c in part1)
+        if g_py and mapped != part2:
+            ctx.violation("spec", "fuse_buses over a closed zero-impedance switch changes the bus -> ppc row partition: %s -> %s" % (part1, part2), desc)
 
 
 def structural_oracle(ctx, rng):
